@@ -55,6 +55,21 @@ def run(H, tier, rng):
         curves.append(("nonmono-%d" % n, curve(x, np.clip(np.exp(-x / 5.0) + 0.08 * np.sin(x * 1.3), 0, 1))))
         curves.append(("rand-%d" % n, curve(x, np.array([rng.random() for _ in range(n)]))))
     curves.append(("bump-8", curve(np.arange(1, 9), [0.93, 0.84, 0.51, 0.51, 0.61, 0.56, 0.09, 0.01])))
+    # seeded random family: steep power laws, staircases with repeated heights and sorted random heights over uneven integer spacing,
+    # with random (dx, dy, dz) - single-site changes of the band filters only show on curves where both branches of the round are exercised
+    for k in range(150 if tier == "quick" else 2500):
+        n = rng.randint(6, 60)
+        xs = np.cumsum([rng.choice([1, 1, 2, 3]) for _ in range(n)]).astype(float)
+        kind = rng.choice(["steep", "stairs", "rand"])
+        if kind == "steep":
+            ys = 1.0 / (1.0 + 0.3 * np.arange(n)) ** rng.choice([1, 2, 3])
+        elif kind == "stairs":
+            ys = np.array(sorted([rng.choice([1.0, .8, .6, .4, .3, .2, .1, .05]) for _ in range(n)], reverse=True))
+        else:
+            ys = np.array(sorted([rng.random() for _ in range(n)], reverse=True))
+        check(H, "%s-%d-#%d" % (kind, n, k), curve(xs, ys), rng.choice([.05, .1, .2, .3]), rng.choice([.01, .02, .05, .1]), rng.choice([.05, .2, .5]))
+        if len(H.violations) >= 20:
+            return
     params = [(0.05, 0.05, 0.05), (0.1, 0.1, 0.1), (0.25, 0.05, 0.5), (0.05, 0.3, 1.0), (1.0, 1.0, 1.0), (0.02, 0.02, 0.2)]
     for name, P in curves:
         for dx, dy, dz in params:
@@ -68,5 +83,6 @@ def run(H, tier, rng):
 
 if __name__ == "__main__":
     Harness("C10", "miss-ratio-like curves (hyperbolas on 0- and 1-based grids, exponentials, linear, flat, staircases, gapped x, non-monotone bumps, "
-            "random) with n in {4,...,60} x 6 (dx,dy,dz) settings in (0,1] x optional x_max / y_range overrides; validity, height order and "
+            "random) with n in {4,...,60} x 6 (dx,dy,dz) settings in (0,1] x optional x_max / y_range overrides, plus a seeded random family "
+            "(steep power laws, staircases, sorted random heights over uneven spacing, random settings: 150 quick / 2500 thorough); validity, height order and "
             "pairwise separation checked from the statement", "n <= 60").main(run)
